@@ -211,8 +211,11 @@ def check(ctx):
         a = m_call(v, name=nm, self_suffix='Envelope')
         return a is not None and len(a) >= len(argpreds) and all(p(a[i]) for i, p in enumerate(argpreds))
     eq = lambda x: (lambda t: t == x)
-    comp('seal', lambda v: is_call(v, 'encrypt_to_recipient', lambda s: is_call(s, 'sign', eq(P1), eq(P2)), eq(P3)), 'encrypt_to_recipient(sign(self, sender), recipient)')
-    comp('unseal', lambda v: is_call(v, 'verify', lambda s: is_call(s, 'decrypt_to_recipient', eq(P1), eq(P3)), eq(P2)), 'verify(decrypt_to_recipient(self, recipient)?, sender)')
+    if not ctx.has('signature'):
+        ctx.skip('C10.4', 'seal/unseal compiled out without the signature feature')
+    else:
+      comp('seal', lambda v: is_call(v, 'encrypt_to_recipient', lambda s: is_call(s, 'sign', eq(P1), eq(P2)), eq(P3)), 'encrypt_to_recipient(sign(self, sender), recipient)')
+      comp('unseal', lambda v: is_call(v, 'verify', lambda s: is_call(s, 'decrypt_to_recipient', eq(P1), eq(P3)), eq(P2)), 'verify(decrypt_to_recipient(self, recipient)?, sender)')
     comp('encrypt_to_recipient', lambda v: is_call(v, 'encrypt_subject_to_recipient', lambda s: is_call(s, 'wrap_envelope', eq(P1)), eq(P2)), 'encrypt_subject_to_recipient(wrap(self), recipient)')
     comp('decrypt_to_recipient', lambda v: is_call(v, 'unwrap_envelope', lambda s: is_call(s, 'decrypt_subject_to_recipient', eq(P1), eq(P2))), 'unwrap_envelope(decrypt_subject_to_recipient(self, recipient)?)')
 
